@@ -30,12 +30,14 @@ MANIFEST = dict(
     technique='Lean 4 theorems on a transcribed report-construction model (exactness of report content, grouping by MDS) and on '
               'an interleaving semantics of writer threads (any number of threads, any schedule; writer program generated from a '
               'lock/send trace of the real commit path) + differential correspondence on wire messages',
-    text='Properties/C04.lean + C04Result.lean (25 theorems): the transaction result is truthful and complete w.r.t. the table change '
+    text='Properties/C04.lean + C04Result.lean + C04Periodic.lean (33 theorems): the transaction result is truthful and complete w.r.t. the table change '
          '(reported value = committed value, every changed state / descriptor reported once); every report of a transaction carries the committed version group; the states in the reports are '
          'exactly the states of the transaction result (permutation), each part holds the states of one MDS, description '
          'modification parts are exactly updated/created/deleted descriptors with their states; for any number of writer threads '
          'whose program keeps version write and send inside one critical section (generated program, checked by decide) the '
-         'delivered versions are strictly increasing under every interleaving. Wire messages of random transaction histories are '
+         'delivered versions are strictly increasing under every interleaving and no committed version stays unreported; the store of the '
+         'fixed-interval periodic reports (program traced per report kind: copy and empty in one critical section, send afterwards) '
+         'loses, repeats and invents nothing under any interleaving of commits with the collector. Wire messages of random transaction histories are '
          'parsed back and compared with the model; the oracle compares them with the table change of the commit.',
     note='Partial: XSD validity is not modelled (every captured message is validated with the bundled schemas by the library '
          'validator as supporting evidence). Trusted: Lean kernel, harness, XML reader used to parse the wire messages '
@@ -530,6 +532,109 @@ def trace_periodic_collector():
         events.append(evs[i])
         i += 1
     return locktrace.to_actions(events)
+
+
+def trace_periodic_store():
+    """Per report kind: the operations of one period of the real `_simple_periodic_reports_send_loop` on the store list of that
+    kind, grouped into blocks (inside one critical section of `_periodic_reports_lock` = one block, outside = one block each)."""
+    import sdc11073.provider.periodicreports as pr
+    p = lb.Provider(mdib_path=c02.MDIBS[1], start=False, role_providers=False)
+    try:
+        m = p.mdib
+        w = tx.World(p, __import__('random').Random(5))
+        handler = pr.PeriodicReportsHandler(m, p.device.hosted_services, None)
+        handler._periodic_reports_interval = 1.0  # noqa: SLF001
+        events = []   # (kind or None, what)
+
+        class Lock:
+            def __init__(self, inner):
+                self.inner = inner
+
+            def __enter__(self):
+                self.inner.acquire()
+                events.append((None, 'acq'))
+
+            def __exit__(self, *a):
+                events.append((None, 'rel'))
+                self.inner.release()
+
+            def acquire(self, *a, **k):
+                r = self.inner.acquire(*a, **k)
+                events.append((None, 'acq'))
+                return r
+
+            def release(self):
+                events.append((None, 'rel'))
+                self.inner.release()
+
+        class Store(list):
+            kind = None
+
+            def __getitem__(self, i):
+                if isinstance(i, slice):
+                    events.append((self.kind, 'take'))
+                return list.__getitem__(self, i)
+
+            def copy(self):
+                events.append((self.kind, 'take'))
+                return list.copy(self)
+
+            def __delitem__(self, i):
+                events.append((self.kind, 'clear'))
+                return list.__delitem__(self, i)
+
+            def clear(self):
+                events.append((self.kind, 'clear'))
+                return list.clear(self)
+        names = {'metric': '_periodic_metric_reports', 'alert': '_periodic_alert_reports', 'component': '_periodic_component_state_reports',
+                 'context': '_periodic_context_state_reports', 'operational': '_periodic_operational_state_reports'}
+        for kind, attr in names.items():
+            st = Store(getattr(handler, attr))
+            st.kind = kind
+            setattr(handler, attr, st)
+        p.device._periodic_reports_handler = handler  # noqa: SLF001  (the device hands every commit to it)
+        # one commit of every kind, so that every store has something to send
+        for kind in ('metric', 'alert', 'component', 'operational'):
+            hs = w.states_of_kind(kind)
+            if hs:
+                with getattr(m, f'{kind}_state_transaction')() as mgr:
+                    w.mutate_state(mgr.get_state(hs[0]), 11)
+        with m.context_state_transaction() as mgr:
+            mgr.mk_context_state('PC.mds0', 'ps_patient', set_associated=False)
+        handler._periodic_reports_lock = Lock(handler._periodic_reports_lock)  # noqa: SLF001
+        ses, cs = p.device.hosted_services.state_event_service, p.device.hosted_services.context_service
+        sends = {'metric': (ses, 'send_periodic_metric_report'), 'alert': (ses, 'send_periodic_alert_report'),
+                 'component': (ses, 'send_periodic_component_state_report'), 'context': (cs, 'send_periodic_context_report'),
+                 'operational': (ses, 'send_periodic_operational_state_report')}
+        originals = {}
+        for kind, (srv, name) in sends.items():
+            originals[kind] = getattr(srv, name)
+            setattr(srv, name, lambda *a, _k=kind, **k: events.append((_k, 'send')))
+        try:
+            run_collector_once(handler, loop='_simple_periodic_reports_send_loop')
+        finally:
+            for kind, (srv, name) in sends.items():
+                setattr(srv, name, originals[kind])
+        w.close()
+    finally:
+        p.stop()
+    progs = {}
+    for kind in names:
+        blocks, cur, locked = [], None, False
+        for k, what in events:
+            if what == 'acq':
+                locked, cur = True, []
+            elif what == 'rel':
+                if cur:
+                    blocks.append(cur)
+                locked, cur = False, None
+            elif k == kind:
+                if locked:
+                    cur.append(what)
+                else:
+                    blocks.append([what])
+        progs[kind] = blocks
+    return progs
 
 
 def periodic_forced(ctx):
@@ -1132,6 +1237,14 @@ def translate(ctx):
             'namespace Sdc.Generated\nopen Sdc.LockLts\n'
             f"def prog_periodicCollector : List Act := [{', '.join('.' + a for a in acts)}]\nend Sdc.Generated\n")
     core.write_if_changed(core.GENERATED + '/PeriodicProg.lean', src2)
+    progs = trace_periodic_store()
+    src3 = ('import SdcModel.PeriodicStore\n/-! generated by harness/props/c04.py: what one period of the real fixed-interval periodic loop does to the '
+            'store list of each report kind\n    (one inner list = the operations inside one critical section of the store lock, or one operation outside it) -/\n'
+            'namespace Sdc.Generated\nopen Sdc.PeriodicStore\ndef periodicStoreProgs : List (String × List (List Op)) := [\n'
+            + ',\n'.join('  ("%s", [%s])' % (k, ', '.join('[' + ', '.join('.' + o for o in b) + ']' for b in bl)) for k, bl in progs.items())
+            + ']\nend Sdc.Generated\n')
+    core.write_if_changed(core.GENERATED + '/PeriodicStoreProg.lean', src3)
+    ctx.notes['periodic_store_progs'] = progs
 
 
 def concurrent_writers(ctx, sync, n_threads, n_tx):
